@@ -1344,10 +1344,12 @@ fn write_central_zip64_extra_field<T: Write>(writer: &mut T, file: &ZipFileData)
     // information record is fixed, but the fields MUST
     // only appear if the corresponding Local or Central
     // directory record field is set to 0xFFFF or 0xFFFFFFFF.
+    // A value equal to 0xFFFFFFFF is indistinguishable from the marker in
+    // its 32-bit field, so it has to be carried by this record as well.
     let mut size = 0;
-    let uncompressed_size = file.uncompressed_size > spec::ZIP64_BYTES_THR;
-    let compressed_size = file.compressed_size > spec::ZIP64_BYTES_THR;
-    let header_start = file.header_start > spec::ZIP64_BYTES_THR;
+    let uncompressed_size = file.uncompressed_size >= spec::ZIP64_BYTES_THR;
+    let compressed_size = file.compressed_size >= spec::ZIP64_BYTES_THR;
+    let header_start = file.header_start >= spec::ZIP64_BYTES_THR;
     if uncompressed_size {
         size += 8;
     }
